@@ -231,3 +231,33 @@ def only_called_from(F, path, allowed):
         if b.path not in allowed and root not in allowed:
             return False
     return True
+
+
+def fold_private_writers(F, touched, is_allowed):
+    """Closed-writer-set rules must not fire when an allowed writer moves part of its work into a private helper.
+    `touched`: {function path: set of things it writes}.  A writer that is not allowed, is not `pub`, has at least one
+    call site and is called only from allowed writers (or from helpers already folded into them) is folded into each of
+    its callers.  Returns (new_touched, folded: {helper: sorted callers})."""
+    touched = {k: set(v) for k, v in touched.items()}
+    folded = {}
+    changed = True
+    while changed:
+        changed = False
+        for fn in sorted(touched):
+            if is_allowed(fn) or not F.has(fn):
+                continue
+            b = F.body(fn)
+            if b.rec.get("pub") or "{closure" in fn:
+                continue
+            callers = set()
+            for cb, bi, t in F.call_sites(fn):
+                callers.add(cb.root if "{closure" in cb.path else cb.path)
+            callers.discard(fn)
+            if not callers or not all(is_allowed(c) for c in callers):
+                continue
+            for c in callers:
+                touched.setdefault(c, set()).update(touched[fn])
+            folded[fn] = sorted(callers)
+            del touched[fn]
+            changed = True
+    return touched, folded
